@@ -226,6 +226,45 @@ theorem C17_bookkeeping_last_row {α : Type} [Sub α] [Zero α] [LT α] [Decidab
   | nil => exact absurd hrows hne
   | cons r rest => exact ⟨r, by simp, hok r (by simp [hrows])⟩
 
+/-! ## several calls of `fit` on one object ("run twice" on the SAME `HypergraphMT`) -/
+
+/-- **a used object fits like a fresh one.**  `o` is any state a `HypergraphMT` object can be in (the `maxL` and the
+stored `(u_f, w_f)` of whatever it was fitted on before); `rs` lists the finals of the realisations of this call, of
+which one ends above `inf = -1e10` (as `C17_bookkeeping` needs for a result to exist at all).  The repaired `fit`
+returns exactly what a fresh object returns. -/
+theorem C17_refit_fresh {α β : Type} [LinearOrder α] (inf : α) (o : α × Option β) (rs : List (α × β))
+    (h : ∃ r ∈ rs, inf < r.1) : fitCall inf o rs = bestOf inf rs := by
+  unfold fitCall bestOf
+  exact fold_forgets rs inf o.2 none h
+
+/-- **every call of a session returns what a fresh object returns for it**, whatever was fitted before on the same
+object (other hypergraph, other seed, the same call): the results of a session are the results of its calls taken
+alone.  Hence two equal calls in one session return equal results. -/
+theorem C17_session_fresh {α β : Type} [LinearOrder α] (inf : α) (calls : List (List (α × β)))
+    (h : ∀ rs ∈ calls, ∃ r ∈ rs, inf < r.1) (o : α × Option β) :
+    session inf o calls = calls.map (bestOf inf) := by
+  induction calls generalizing o with
+  | nil => rfl
+  | cons rs cs ih =>
+    simp only [session, List.map_cons]
+    rw [C17_refit_fresh inf o rs (h rs (by simp))]
+    congr 1
+    exact ih (fun x hx => h x (List.mem_cons_of_mem _ hx)) _
+
+/-- **the defect D52 (before the repair).**  `maxL` was set in `__init__` only: a call none of whose realisations ends
+above the `maxL` the object already holds returns the OLD `maxL` and the OLD `(u_f, w_f)` - of another seed or another
+hypergraph.  (With equal arguments the old and the new finals coincide, which is why two equal calls agreed.) -/
+theorem C17_refit_stale_defect {α β : Type} [LinearOrder α] (o : α × Option β) (rs : List (α × β))
+    (h : ∀ r ∈ rs, r.1 ≤ o.1) : fitCallStale o rs = o := by
+  unfold fitCallStale
+  exact fold_keeps rs o h
+
+/-- non-vacuity / witness: first call finals `-3` (parameters `7`), second call on the same object finals `-8, -5`
+(parameters `1, 2`): the repaired session returns `(-5, 2)` for the second call, the unrepaired one `(-3, 7)` again -/
+example : session (-10 : Int) (-10, (none : Option Nat)) [[(-3, 7)], [(-8, 1), (-5, 2)]] = [(-3, some 7), (-5, some 2)] ∧
+    sessionStale (-10, (none : Option Nat)) [[((-3 : Int), 7)], [(-8, 1), (-5, 2)]] = [(-3, some 7), (-3, some 7)] := by
+  decide
+
 /-! ## `HySC.apply_kmeans` -/
 
 /-- **one 1 per non-isolated row, none otherwise**, given k-means labels in `[0, K)` (one per non-isolated node);
